@@ -15,18 +15,20 @@ EXTENDS BlockTable, Json, IOUtils
 Tr == ndJsonDeserialize(IOEnv.TRACE)
 N  == Len(Tr)
 
-VARIABLES l, abs, lost, viol, execs, ctx
-tvars == <<l, abs, lost, viol, execs, ctx>>
+VARIABLES l, abs, lost, viol, execs, ctx, mf
+tvars == <<l, abs, lost, viol, execs, ctx, mf>>
+(* mf: slots whose block was the source of a MOVE and not cleared or overwritten since.  The property promises nothing   *)
+(* about a moved-from block (the pinned code copies, a real move empties it), so nothing observed on it is judged.     *)
 
 Note(v) == IF Len(viol) < 40 THEN Append(viol, v) ELSE viol
 Slots == 1..3
 
 TraceInit == /\ l = 1 /\ abs = [t \in Slots |-> <<>>] /\ lost = TRUE /\ viol = <<>> /\ execs = 0
-             /\ ctx = [tab |-> "", how |-> "", cls |-> ""]
+             /\ ctx = [tab |-> "", how |-> "", cls |-> ""] /\ mf = {}
 
 TReset == /\ l <= N /\ Tr[l].e = "R"
           /\ abs' = [t \in Slots |-> <<>>] /\ lost' = FALSE /\ execs' = execs + 1 /\ l' = l + 1
-          /\ ctx' = [tab |-> Tr[l].tab, how |-> Tr[l].how, cls |-> Tr[l].cls]
+          /\ ctx' = [tab |-> Tr[l].tab, how |-> Tr[l].how, cls |-> Tr[l].cls] /\ mf' = {}
           /\ UNCHANGED viol
 
 Bad(props, what, ev) == /\ viol' = Note([l |-> l, prop |-> props, what |-> what, tab |-> ctx.tab, how |-> ctx.how,
@@ -34,8 +36,8 @@ Bad(props, what, ev) == /\ viol' = Note([l |-> l, prop |-> props, what |-> what,
                         /\ lost' = TRUE
 
 TAdd == /\ l <= N /\ Tr[l].e = "A"
-        /\ l' = l + 1 /\ UNCHANGED <<execs, ctx>>
-        /\ IF lost THEN UNCHANGED <<abs, lost, viol>>
+        /\ l' = l + 1 /\ UNCHANGED <<execs, ctx, mf>>
+        /\ IF lost \/ Tr[l].t \in mf THEN UNCHANGED <<abs, lost, viol>>
            ELSE LET ev == Tr[l]
                     a  == AbsAdd(abs[ev.t], ev.v)
                 IN IF ev.idx = a.idx /\ ev.size = Len(a.items) /\ ev.back = ev.v
@@ -45,8 +47,8 @@ TAdd == /\ l <= N /\ Tr[l].e = "A"
 
 (* add_value: appended unconditionally (as the reader does with the entries of a file) *)
 TAddValue == /\ l <= N /\ Tr[l].e = "AV"
-             /\ l' = l + 1 /\ UNCHANGED <<execs, ctx>>
-             /\ IF lost THEN UNCHANGED <<abs, lost, viol>>
+             /\ l' = l + 1 /\ UNCHANGED <<execs, ctx, mf>>
+             /\ IF lost \/ Tr[l].t \in mf THEN UNCHANGED <<abs, lost, viol>>
                 ELSE LET ev == Tr[l]
                          a  == AbsAddValue(abs[ev.t], ev.v)
                      IN IF ev.idx = a.idx /\ ev.size = Len(a.items) /\ ev.back = ev.v
@@ -56,11 +58,13 @@ TAddValue == /\ l <= N /\ Tr[l].e = "AV"
 
 TClear == /\ l <= N /\ Tr[l].e \in {"CL", "DS"}
           /\ l' = l + 1 /\ UNCHANGED <<execs, ctx, lost, viol>>
-          /\ abs' = [abs EXCEPT ![Tr[l].t] = <<>>]
+          /\ abs' = [abs EXCEPT ![Tr[l].t] = <<>>] /\ mf' = mf \ {Tr[l].t}
 
 TCopy == /\ l <= N /\ Tr[l].e = "CP"
          /\ l' = l + 1 /\ UNCHANGED <<execs, ctx>>
-         /\ IF lost THEN UNCHANGED <<abs, lost, viol>>
+         /\ mf' = IF Tr[l].src \in mf THEN mf \cup {Tr[l].dst}
+                  ELSE IF ctx.how = "move" THEN (mf \ {Tr[l].dst}) \cup {Tr[l].src} ELSE mf \ {Tr[l].dst}
+         /\ IF lost \/ Tr[l].src \in mf THEN UNCHANGED <<abs, lost, viol>>
             ELSE LET ev == Tr[l] IN
                  IF ev.size # Len(abs[ev.src])
                  THEN /\ Bad("C19", "copied block does not hold the source's content", ev) /\ UNCHANGED abs
@@ -71,17 +75,17 @@ TCopy == /\ l <= N /\ Tr[l].e = "CP"
                                              what |-> "lookup keys of the copied block still refer to the source's storage"])
 
 TFinal == /\ l <= N /\ Tr[l].e = "F"
-          /\ l' = l + 1 /\ UNCHANGED <<execs, ctx, abs>>
-          /\ IF lost \/ Tr[l].vals = abs[Tr[l].t] THEN UNCHANGED <<lost, viol>>
+          /\ l' = l + 1 /\ UNCHANGED <<execs, ctx, abs, mf>>
+          /\ IF lost \/ Tr[l].t \in mf \/ Tr[l].vals = abs[Tr[l].t] THEN UNCHANGED <<lost, viol>>
              ELSE Bad("C11,C19", "final table content differs from the abstract table", Tr[l])
 
 TCrash == /\ l <= N /\ Tr[l].e = "CRASH"
-          /\ l' = l + 1 /\ UNCHANGED <<execs, ctx, abs>>
+          /\ l' = l + 1 /\ UNCHANGED <<execs, ctx, abs, mf>>
           /\ Bad("C19,C11,C03", "implementation crashed (sanitizer report or signal): " \o Tr[l].what, Tr[l])
 
 TEnd == /\ l <= N /\ Tr[l].e = "END"
         /\ ndJsonSerialize(IOEnv.OUT, <<[execs |-> execs, events |-> N, viol |-> viol, drift |-> <<>>]>>)
-        /\ l' = l + 1 /\ UNCHANGED <<abs, lost, viol, execs, ctx>>
+        /\ l' = l + 1 /\ UNCHANGED <<abs, lost, viol, execs, ctx, mf>>
 
 TraceNext == TReset \/ TAdd \/ TAddValue \/ TClear \/ TCopy \/ TFinal \/ TCrash \/ TEnd
 TraceSpec == TraceInit /\ [][TraceNext]_tvars
